@@ -609,6 +609,7 @@ func Float64ToByte(float float64) string {
 // redis8.x : RdbTypeStreamListPacks4
 type StreamParser struct {
 	BaseParser
+	idleConsumers bool // WithStreamIdleConsumers
 }
 
 func (sp *StreamParser) ReadBuffer(lr *Loader) {
@@ -987,7 +988,9 @@ func (sp *StreamParser) ExecCmd(cb RdbObjExecutor) {
 		}
 
 		/* Generate XCLAIMs for each consumer that happens to
-		 * have pending entries. Empty consumers are discarded. */
+		 * have pending entries. Empty consumers are created with XGROUP
+		 * CREATECONSUMER when the loader asks for them (WithStreamIdleConsumers)
+		 * and the target knows the command, discarded otherwise. */
 		numConsumer := r.ReadLength64P()
 		for i := uint64(0); i < numConsumer; i++ {
 			/* For the current consumer, iterate all the PEL entries
@@ -1004,6 +1007,11 @@ func (sp *StreamParser) ExecCmd(cb RdbObjExecutor) {
 
 			/* Consumer PEL */
 			pelSize := r.ReadLength64P()
+			if pelSize == 0 && sp.idleConsumers && util.VersionGE(sp.targetRedisVersion, "6.2", util.VersionMinor) {
+				/* A consumer without pending entries : no XCLAIM creates it
+				 * (XGROUP CREATECONSUMER exists since redis 6.2). */
+				panicIfErr(cb("XGROUP", "CREATECONSUMER", sp.key, groupName, consumerName))
+			}
 			for i := uint64(0); i < pelSize; i++ {
 				// stream ID
 				tmpBytes := r.ReadBytesP(16)
